@@ -371,6 +371,90 @@ impl Ctx {
         }
     }
 
+    /// Parallel variant of `run_prop` for oracles that spawn processes: all cases are generated first (deterministically
+    /// from the seed), the pure oracle `f` runs on worker threads, `absorb` feeds evidence counters on the main thread in
+    /// generation order; the first failing case (in generation order) is shrunk with proptest's own value tree
+    /// (simplify / complicate) using `f` sequentially.
+    pub fn run_prop_par<S, F, A, J, R>(&self, sub: &str, strategy: S, cases: u32, to_json: J, f: F, absorb: A)
+    where
+        S: Strategy,
+        S::Value: std::fmt::Debug + Clone + Sync,
+        R: Send,
+        F: Fn(&S::Value) -> (Check, R) + Sync,
+        A: Fn(&S::Value, R),
+        J: Fn(&S::Value) -> Value,
+    {
+        let seed = self.seed ^ hash_of(&(self.id, sub)).rotate_left(17);
+        let config = Config { cases, rng_seed: RngSeed::Fixed(seed), failure_persistence: None, ..Config::default() };
+        let mut runner = TestRunner::new(config);
+        let guarded = |v: &S::Value| -> (Check, Option<R>) {
+            match std::panic::catch_unwind(std::panic::AssertUnwindSafe(|| f(v))) {
+                Ok((c, r)) => (c, Some(r)),
+                Err(p) => {
+                    let m = if let Some(s) = p.downcast_ref::<String>() { s.clone() } else if let Some(s) = p.downcast_ref::<&str>() { (*s).to_string() } else { "panic".to_string() };
+                    (Err(Fail::new("panic", m)), None)
+                }
+            }
+        };
+        // batches keep memory bounded and let a failure stop the run early
+        let batch = (ncpu() * 8).max(16);
+        let mut done = 0u32;
+        while done < cases {
+            let n = batch.min((cases - done) as usize);
+            let mut trees: Vec<_> = (0..n).map(|_| strategy.new_tree(&mut runner).expect("new_tree")).collect();
+            let values: Vec<S::Value> = trees.iter().map(|t| t.current()).collect();
+            let results = par_map(&values, ncpu(), |v| guarded(v));
+            let mut failing: Option<(usize, Fail)> = None;
+            for (i, (c, r)) in results.into_iter().enumerate() {
+                if failing.is_some() {
+                    break;
+                }
+                if let Some(r) = r {
+                    absorb(&values[i], r);
+                }
+                if let Err(fl) = self.judge(c) {
+                    failing = Some((i, fl));
+                }
+            }
+            if let Some((i, first_fail)) = failing {
+                self.frozen.set(true);
+                let tree = &mut trees[i];
+                let mut best: (S::Value, Fail) = (values[i].clone(), first_fail);
+                let mut iters = 0;
+                if tree.simplify() {
+                    loop {
+                        iters += 1;
+                        if iters > 600 {
+                            break;
+                        }
+                        let cur = tree.current();
+                        let failed = match guarded(&cur).0 {
+                            Err(fl) if self.is_known(&fl.sig).is_none() => Some(fl),
+                            _ => None,
+                        };
+                        match failed {
+                            Some(fl) => {
+                                best = (cur, fl);
+                                if !tree.simplify() {
+                                    break;
+                                }
+                            }
+                            None => {
+                                if !tree.complicate() {
+                                    break;
+                                }
+                            }
+                        }
+                    }
+                }
+                self.frozen.set(false);
+                self.violation(sub, best.1, &to_json(&best.0));
+                return;
+            }
+            done += n as u32;
+        }
+    }
+
     /// Generate `n` values from a strategy deterministically (no shrinking) — for batch pipelines.
     pub fn generate<S: Strategy>(&self, sub: &str, strategy: &S, n: usize) -> Vec<S::Value> {
         let seed = self.seed ^ hash_of(&(self.id, sub, "gen")).rotate_left(23);
@@ -571,6 +655,12 @@ pub fn par_map<T: Sync, R: Send, F: Fn(&T) -> R + Sync>(items: &[T], threads: us
         }
     });
     out.into_iter().flatten().collect()
+}
+
+/// process-wide counter for scratch directory names (parallel cases may be equal; their directories must not be)
+pub fn uniq() -> u64 {
+    static N: std::sync::atomic::AtomicU64 = std::sync::atomic::AtomicU64::new(0);
+    N.fetch_add(1, std::sync::atomic::Ordering::Relaxed)
 }
 
 pub fn ncpu() -> usize {
